@@ -2,7 +2,7 @@
 # run all demos in dev and release
 for p in "" "--release"; do
   cargo build --offline $p 2>/dev/null >/dev/null || cargo build --offline $p 2>&1 | tail -20
-  for f in F1 F2 F3 F4a F4b F5 F6a F6b F7 F8a F8b F10 F12 F13; do
+  for f in F1 F2 F3 F4a F4b F5 F6a F6b F7 F8a F8b F10 F12 F13 F14; do
     if [ -z "$p" ]; then b=target/debug/demo; else b=target/release/demo; fi
     out=$($b $f 2>/dev/null); rc=$?
     echo "[${p:-dev}] rc=$rc $out"
